@@ -109,6 +109,15 @@ def make_scheduler(kind: str, seed: int, mode="min", early=None):
     if kind == "median":
         base = FIFOScheduler(cs, searcher="random", search_options=so, **common)
         return MedianStoppingRule(base, resource_attr=RES, grace_time=1, grace_population=2)
+    if kind in ("hbbo_stopping", "hbbo_promotion", "hbht_promotion", "dyhpo"):
+        # model-based searchers under the real tuner (few random initial points so that the surrogate model is used)
+        typ = "dyhpo" if kind == "dyhpo" else kind.split("_")[1]
+        srch = {"hbbo": "bayesopt", "hbht": "hypertune", "dyhp": "dyhpo"}[kind[:4]]
+        kw = dict(searcher=srch, search_options=dict(so, num_init_random=3, opt_maxiter=5, opt_nstarts=1), resource_attr=RES,
+                  max_resource_attr=MAXRES, grace_period=1, type=typ, **common)
+        if kind != "dyhpo":
+            kw["reduction_factor"] = 2
+        return HyperbandScheduler(cs, **kw)
     if kind.startswith("hb_"):
         typ = kind[3:]
         kw = dict(searcher="random", search_options=so, resource_attr=RES, max_resource_attr=MAXRES, grace_period=1,
@@ -136,9 +145,10 @@ def make_scheduler(kind: str, seed: int, mode="min", early=None):
     raise ValueError(kind)
 
 
+GP_KINDS = ["fifo_bayesopt", "hbbo_stopping", "hbbo_promotion", "hbht_promotion", "dyhpo"]
 KINDS = ["fifo_random", "median", "hb_stopping", "hb_promotion", "hb_pasha", "hb_cost_promotion", "hb_rush_stopping",
          "synchb", "dehb", "pbt", "moasha"]
-PAUSE_RESUME = {"hb_promotion", "hb_pasha", "hb_cost_promotion", "synchb", "dehb"}
+PAUSE_RESUME = {"hb_promotion", "hb_pasha", "hb_cost_promotion", "synchb", "dehb", "hbbo_promotion", "hbht_promotion", "dyhpo"}
 
 
 def run(kind: str, seed: int, n_workers: int, started_budget: int, p_fail=0.0, p_ext=0.0, delete_checkpoints=False,
